@@ -14,7 +14,8 @@ contract(CMx + 'bayesian_information_criterion', props=['C16', 'C19'],
                    "model.clusters[k].train_inverse.shape[0] == model.clusters[k].train_inverse.shape[1] and "
                    "model.clusters[k].empirical_covariance.shape[0] == model.clusters[k].train_inverse.shape[0] and "
                    "model.clusters[k].empirical_covariance.shape[1] == model.clusters[k].train_inverse.shape[0])"],
-         ghost={'kind:cluster_params': 'idict'},
+         ghost={'kind:cluster_params': 'idict',
+                'native_ensures': [("native:bic-finite-and-matches-its-definition", "math.isfinite(result) and result == bic_definition(model)")]},
          ensures=[("bic-matches-its-definition",
                    # P*ln(T) - 2*sum_k( ln det Theta_k - tr(Theta_k S_k) ), P counted once per maximal run of equal labels
                    "result == runsum(model._point_labels, lambda k: " + _CP + ", len(model._point_labels)) * ln(len(model._point_labels)) "
@@ -61,3 +62,8 @@ specfn('chi_definition', native="lambda X, model: (lambda K, T, g: "
        "(sum(len(c.member_points) * float(np.sum((c.stacked_data_mean - g) ** 2)) for c in model.clusters) / (K - 1)) / "
        "(sum(float(np.sum((X[p] - c.stacked_data_mean) ** 2)) for c in model.clusters for p in c.member_points) / (T - K)))"
        "(len(model.clusters), len(X), X.mean(axis=0))")
+
+specfn('bic_definition', native="lambda model: (lambda L, cps: "
+       "sum(cps[l] for i, l in enumerate(L) if i == 0 or l != L[i - 1]) * math.log(len(L)) - 2 * "
+       "sum(float(np.linalg.slogdet(c.train_inverse)[1]) - float(np.trace(c.train_inverse @ c.empirical_covariance)) for c in model.clusters))"
+       "(model.point_labels, [int(np.sum(np.abs(c.train_inverse) > 2e-5)) for c in model.clusters])")
